@@ -34,6 +34,26 @@ Theorem C27_exact_hooks : forall pm b ls s, run pm (PubSub.init b) ls = Some s -
 Proof. intros pm b ls s H h Hin. destruct (hook_reach pm b ls s H) as [_ HC]. apply (ci_hooks _ HC). exact Hin. Qed.
 Print Assumptions C27_exact_hooks.
 
+(** both callbacks on one connection: with ClientOption.OnInvalidations set AND a hook set with an invalidation callback
+    installed on the same connection (SetOnInvalidations on a dedicated client), every invalidate push — single key,
+    several keys, flush — is delivered to BOTH: the hook's callback does not replace the client-wide one.  Step level:
+    handling one push appends its keys to the client-wide log and to the installed hook's log.  Run level: in every
+    reachable state the client-wide log is exactly the pushes handled on the connection (+ nil once it is lost) while each
+    hook set's log is exactly the pushes handled while it was installed (+ nil iff installed at the loss). *)
+Theorem C27_exact_both_callbacks :
+  (forall s keys h, st_oninval s = true -> cur_hook s = Some h -> hk_inval h = true ->
+     st_cb (handle_push s (FInval keys)) = st_cb s ++ [keys] /\
+     st_hinval (handle_push s (FInval keys)) = st_hinval s ++ [(hk_id h, keys)]) /\
+  (forall pm ls s, run pm (PubSub.init true) ls = Some s ->
+     st_cb s = invals (st_handled s) ++ (if st_cleaned s then [None] else []) /\
+     forall h, In h (st_hooks s) -> hook_inval_log s (hk_id h) = hook_inval_spec s h).
+Proof.
+  split.
+  - intros s keys h Ho Hc Hi. unfold handle_push, cur_hook in *. cbn [st_oninval st_cur st_hooks st_cb st_hinval]. rewrite Ho, Hc, Hi. split; reflexivity.
+  - intros pm ls s H. split; [exact (C27_exact pm true ls s H)|exact (C27_exact_hooks pm true ls s H)].
+Qed.
+Print Assumptions C27_exact_both_callbacks.
+
 (** releasing a dedicated client that installed an invalidation callback: CLIENT TRACKING OFF is sent by the
     releasing client on its wire, tracking is off, and only then is the wire released / idle *)
 Theorem C27_tracking_off : forall s d c x,
